@@ -111,9 +111,12 @@ func build(s dlg) *dev.CLIDevice {
 		bad := line != cm.Pass
 		if attempts < s.rLogin {
 			attempts++
-			switch s.kind {
-			case "telnet":
+			switch {
+			case s.kind == "telnet", s.kind == "telnet-repass-even" && attempts%2 == 0, s.kind == "telnet-repass-odd" && attempts%2 == 1:
 				return dev.Reply{Raw: strp("% Login invalid\n\n" + userPrompt), Next: "ask-user", Wrong: bad}
+			case strings.HasPrefix(s.kind, "telnet-repass"):
+				// the device asks for the password once more before it falls back to the user-name prompt
+				return dev.Reply{Raw: strp("% Password incorrect\n" + passPrompt), Wrong: bad}
 			default:
 				return dev.Reply{Raw: &passPrompt, Wrong: bad}
 			}
@@ -415,6 +418,18 @@ func scenarios(tier string) []sched.Scenario {
 			}
 		}
 	}
+	// devices that re-ask for the password after every other refusal before going back to the user name
+	for _, kind := range []string{"telnet-repass-even", "telnet-repass-odd"} {
+		for u := range userSpellings {
+			for p := range passSpellings {
+				for r := 0; r <= 3; r++ {
+					for _, mc := range presets {
+						out = append(out, scenario(dlg{kind, 0, u, p, r, -1, -1, 0, mc, envOf(mc), false}))
+					}
+				}
+			}
+		}
+	}
 	for _, kind := range []string{"ssh", "ssh-nc"} {
 		for b := range banners[:3] {
 			for _, p := range []int{0, 2} {
@@ -465,7 +480,7 @@ func TestCheck(t *testing.T) {
 	sched.Main(t, sched.Check{
 		ID:          "C10",
 		Level:       "model_checking",
-		Rule:        "all paths of a login state machine: telnet {user+password, password only} x 3 banners x 3 user-prompt spellings x 3 password-prompt spellings x 0..3 rejected attempts; ssh {shell, NETCONF hello after login} x banners x 2 password spellings x 0..3 rejected passwords x {no passphrase, 0..3 rejected passphrases}; 11 ssh client error lines at 2 positions; x read presets {whole, 1, 7 bytes} with every placement of up to 1 (2 thorough) extra cuts/holds that does not leave a banner line looking like a prompt; oracle = the same machine run abstractly (success iff each credential asked at most twice; error classes), device-side (state, line) log, transport closed on failure, first GetPrompt / capability exchange after login",
+		Rule:        "all paths of a login state machine: telnet {user+password, password only} x 3 banners x 3 user-prompt spellings x 3 password-prompt spellings x 0..3 rejected attempts (refusals lead back to the user-name prompt, or alternately to a new password prompt); ssh {shell, NETCONF hello after login} x banners x 2 password spellings x 0..3 rejected passwords x {no passphrase, 0..3 rejected passphrases}; 11 ssh client error lines at 2 positions; x read presets {whole, 1, 7 bytes} with every placement of up to 1 (2 thorough) extra cuts/holds that does not leave a banner line looking like a prompt; oracle = the same machine run abstractly (success iff each credential asked at most twice; error classes), device-side (state, line) log, transport closed on failure, first GetPrompt / capability exchange after login",
 		Assumptions: []string{"rejections re-prompt without printing an ssh failure message", "the peer hanging up is explored at every byte offset of 7 dialogues (whole-message and 7-byte reads)", "silence during login is C05's case (stall-point enumeration over telnet.Open / ssh.Open)"},
 		Scenarios:   scenarios,
 		Budget:      map[string]time.Duration{"quick": 5 * time.Minute, "thorough": 40 * time.Minute},
